@@ -249,14 +249,26 @@ def setpoint_shift(chk: Check, repo: Repo) -> None:
     cls = repo.cls(f"{RV}.remote_value_setpoint_shift", "RemoteValueSetpointShift")
     tk, fk = cls.methods["to_knx"], cls.methods["from_knx"]
     chk.unit(tk); chk.unit(fk)
-    conv = [n for n in walk_local(tk.node) if isinstance(n, ast.Assign) and isinstance(n.targets[0], ast.Name) and n.targets[0].id == "converted_value"]
+    # the count handed to the 1-count encoder (through a local or directly), and the decoder's return that scales by the step
+    enc_calls = [c for c in calls(tk.node) if call_name(c) == "DPTValue1Count.to_knx" and len(c.args) == 1]
+    conv = []
+    for c in enc_calls:
+        a = c.args[0]
+        if isinstance(a, ast.Name):
+            conv += [n for n in walk_local(tk.node) if isinstance(n, ast.Assign) and len(n.targets) == 1 and isinstance(n.targets[0], ast.Name) and n.targets[0].id == a.id]
+        else:
+            conv.append(ast.Assign(targets=[ast.Name(id="_", ctx=ast.Store())], value=a))
     back = [n for n in walk_local(fk.node) if isinstance(n, ast.Return) and n.value is not None and any(isinstance(x, ast.Attribute) and x.attr == "setpoint_shift_step" for x in ast.walk(n.value))]
     if len(conv) != 1 or len(back) != 1:
         raise AnalysisError("RemoteValueSetpointShift: step conversion not found")
+    raw_names = {n.targets[0].id for n in walk_local(fk.node) if isinstance(n, ast.Assign) and len(n.targets) == 1 and isinstance(n.targets[0], ast.Name) and isinstance(n.value, ast.Call) and call_name(n.value).endswith(".from_knx")}
+    raw_in_back = sorted({x.id for x in ast.walk(back[0].value) if isinstance(x, ast.Name) and x.id in raw_names})
+    if len(raw_in_back) != 1:
+        raise AnalysisError("RemoteValueSetpointShift.from_knx: the decoded count is not a single local")
     a1, b1 = affine(conv[0].value, tk.node.args.args[1].arg, {})
     quant = [c for c in calls(back[0]) if call_name(c) == "round" and len(c.args) > 1]
     try:
-        a2, b2 = affine(back[0].value, "payload_value", {})
+        a2, b2 = affine(back[0].value, raw_in_back[0], {})
         ok = not quant and a2 * a1 == LP.const(1) and (a2 * b1 + b2) == LP()
         detail = f"to_knx: v -> ({a1})*v + ({b1}); from_knx: r -> ({a2})*r + ({b2})" + (f"; but the decoder quantises with `{ast.unparse(quant[0])}` independently of the step" if quant else "")
     except AnalysisError as err:
@@ -301,17 +313,25 @@ def climate(chk: Check, repo: Repo) -> None:
     chk.ob("base-temperature-read-before-the-shift-changes", ss.site(), ok, "set_setpoint_shift reads base_temperature into a local before calling _setpoint_shift.set", key="climate|order")
     # base + (target - base) == target
     base_ret = [n for n in walk_local(bt.node) if isinstance(n, ast.Return) and n.value is not None and not (isinstance(n.value, ast.Constant) and n.value.value is None)]
-    delta = [n for n in walk_local(tt.node) if isinstance(n, ast.Assign) and isinstance(n.targets[0], ast.Name)]
+    # offset handed to set_setpoint_shift as a function of the requested target (through a local or directly)
+    ssc = [c for c in calls(tt.node) if call_name(c) == "self.set_setpoint_shift" and len(c.args) == 1]
+    delta = []
+    for c in ssc:
+        a = c.args[0]
+        if isinstance(a, ast.Name):
+            delta += [n.value for n in walk_local(tt.node) if isinstance(n, ast.Assign) and len(n.targets) == 1 and isinstance(n.targets[0], ast.Name) and n.targets[0].id == a.id]
+        else:
+            delta.append(a)
     newt = [c for c in calls(ss.node) if call_name(c) == "self.target_temperature.set"]
-    if len(base_ret) != 1 or not delta or len(newt) != 1:
+    shift_set = [c for c in calls(ss.node) if call_name(c) == "self._setpoint_shift.set" and len(c.args) == 1 and isinstance(c.args[0], ast.Name)]
+    if len(base_ret) != 1 or len(delta) != 1 or len(newt) != 1 or len(shift_set) != 1 or len(rd) != 1:
         raise AnalysisError("Climate: setpoint arithmetic not found")
-    a_d, b_d = affine(delta[0].value, "target_temperature", {})  # offset as a function of the requested target
-    off_name = ss.node.args.args[1].arg
-    local = {v.id: (LP(), LP.sym(v.id)) for v in ast.walk(newt[0].args[0]) if isinstance(v, ast.Name)}
-    a_n, b_n = affine(newt[0].args[0], "validated_offset", {})
-    # new target = a_n*offset + b_n with offset = a_d*T + b_d, base symbol shared: `self.base_temperature` vs local `base_temperature`
-    same_base = LP.sym("base_temperature")
-    b_d2 = LP({tuple((("base_temperature" if s == "self.base_temperature" else s), e) for s, e in k): v for k, v in b_d.t.items()})
+    a_d, b_d = affine(delta[0], tt.node.args.args[1].arg, {})  # offset as a function of the requested target
+    off_local = shift_set[0].args[0].id  # the (validated) offset that is sent as the shift
+    base_local = rd[0].ast.targets[0].id  # the local copy of base_temperature taken before the shift changes
+    a_n, b_n = affine(newt[0].args[0], off_local, {})
+    # new target = a_n*offset + b_n with offset = a_d*T + b_d; the base symbol is shared: `self.base_temperature` vs its local copy
+    b_d2 = LP({tuple(((base_local if s_ == "self.base_temperature" else s_), e) for s_, e in k): v for k, v in b_d.t.items()})
     comp_a, comp_b = a_n * a_d, a_n * b_d2 + b_n
     ok2 = comp_a == LP.const(1) and comp_b == LP()
     chk.ob("requested-target-is-what-the-shift-produces", tt.site(), ok2, f"offset = ({a_d})*T + ({b_d}); new target = ({a_n})*offset + ({b_n}); composition ({comp_a})*T + ({comp_b}) (unclamped)", key="climate|algebra")
